@@ -31,6 +31,9 @@ def gen(ctx):
         hi = 200 if long else 24
         key_id = rstr(r, UNRES, 0, hi)
         secret = rstr(r, PRINTABLE, 0, 200 if long else 40)
+        if r.random() < 0.12:   # "AWS4" + secret on both sides of the 64-byte HMAC block
+            secret = "".join(r.choice(PRINTABLE) for _ in range(r.choice([59, 60, 61, 124])))
+            ctx.count("aws.secret.hmac_block_boundary")
         region = rstr(r, UNRES, 0, hi)
         # mostly midnight-adjacent / boundary instants so that a second time() sample would differ
         t = r.choice(TIMES) if r.random() < 0.6 else r.randrange(0, 253402300799)
@@ -100,7 +103,8 @@ def check_aws(ctx):
         ctx.fail(sub, "tie", "", err)
         return
     cases = gen(ctx)
-    impl, st = vlib.run_sharded(exe, cases, env={"ASAN_OPTIONS": "detect_leaks=1"})
+    # the process time zone must not matter (timestamps are UTC): run far from UTC
+    impl, st = vlib.run_sharded(exe, cases, env={"ASAN_OPTIONS": "detect_leaks=1", "TZ": ctx.rng.choice(["PST8PDT", "XXX-13", "YYY11"])})
     vlib.sanitizer_reports(ctx, sub, st)
     model, _ = vlib.run_sharded(mexe, cases)
     # spec: evaluated at the returned timestamp; compare (content, authorization) / query
